@@ -7,7 +7,10 @@ import GoBk.Proofs.Bip39Lemmas
   Agreement of the checked transcriptions in `GoBk.Model.Checked` with the total models:
   for every decoder `f` named in C15, `fC x = ofOption (f x)` (resp. the analogous statement for
   `Except`/three-valued results).  Since `ofOption _` is never `.panic`, the `_total` theorems of
-  Props/C15 follow.
+  Props/C15 follow.  Two agreements need a length fact about a primitive (the `_ne_panic`
+  theorems do not): `eciesDecryptC_eq` (CBC decryption preserves the length; unconditional form
+  `eciesDecryptC_eq_fit`) and `childC_eq`/`derivePathC_eq` (HMAC-SHA512 returns 64 bytes).
+  Not yet proved: nothing listed in the task is missing.
 -/
 namespace GoBk.Checked
 open GoBk Bytes Spec
@@ -856,5 +859,179 @@ theorem mnemonicC_eq (pr : Prims) (ent pass : Bytes) :
     rw [Nat.mul_zero, List.drop_zero, Nat.sub_zero] at this
     rw [show (11 : Nat) = 11 * (0 + 1) from rfl, this, ok_bind, Bip39.ofString_empty, List.nil_append]
     rfl
+
+/-! ### `ExtendedKey.Child`, `DeriveChildFromPath` -/
+
+theorem copyInto_length (dst src : Bytes) : (copyInto dst src).length = dst.length := by
+  unfold copyInto; simp; omega
+
+/-- the first 33 bytes of `data` after `copy(data[offset:], key)` -/
+theorem data_hard (key : Bytes) (o : Nat) (ho1 : 1 ≤ o) (ho : o ≤ 33) :
+    ((List.replicate 37 (0 : UInt8)).take o ++ copyInto ((List.replicate 37 (0 : UInt8)).drop o) key).take 33 =
+      ((List.replicate o 0 ++ key) ++ List.replicate 33 0).take 33 := by
+  unfold copyInto
+  simp only [List.take_replicate, List.drop_replicate, List.length_replicate, List.append_assoc,
+    List.take_append, List.take_take, List.length_take]
+  have e1 : min 33 (min o 37) = min 33 o := by omega
+  have e2 : min (33 - min o 37) (37 - o) = 33 - o := by omega
+  have e3 : min (33 - min o 37 - min (37 - o) key.length) (37 - o - key.length) = min (33 - o - key.length) 33 := by omega
+  rw [e1, e2, e3]
+
+/-- the first 33 bytes of `data` after `copy(data, pub)` -/
+theorem data_soft (pub : Bytes) :
+    (copyInto (List.replicate 37 (0 : UInt8)) pub).take 33 = (pub ++ List.replicate 33 0).take 33 := by
+  unfold copyInto
+  simp only [List.take_replicate, List.drop_replicate, List.length_replicate,
+    List.take_append, List.take_take, List.length_take]
+  have e1 : min 33 37 = 33 := by omega
+  have e3 : min (33 - min 37 pub.length) (37 - pub.length) = min (33 - pub.length) 33 := by omega
+  rw [e1, e3]
+
+/-- the model's `data` of `Child` -/
+def childData (k : Bip32.XKey) (i : Nat) (hardened : Bool) : Bytes :=
+  (if hardened then
+      let offset := if 33 - k.key.length < 1 then 1 else 33 - k.key.length
+      ((List.replicate offset 0 ++ k.key) ++ List.replicate 33 0).take 33
+    else ((k.pubKeyBytes) ++ List.replicate 33 0).take 33) ++ Bip32.be32 i
+
+theorem childDataC_tail (d : Bytes) (i : Nat) (hd : d.length = 37) :
+    (do let dst ← sliceFrom d 33
+        let dst ← putUint32 dst i
+        Res.ok (d.take 33 ++ dst) : Res Bytes) = .ok (d.take 33 ++ Bip32.be32 i) := by
+  rw [sliceFrom_ok d 33 (by omega), ok_bind]
+  unfold putUint32
+  rw [if_pos (by simp; omega), ok_bind]
+  have : (d.drop 33).drop 4 = [] := by
+    apply List.drop_eq_nil_of_le; simp; omega
+  rw [this, List.append_nil]
+
+theorem childDataC_eq (k : Bip32.XKey) (i : Nat) (hardened : Bool) :
+    childDataC k i hardened = .ok (childData k i hardened) := by
+  unfold childDataC childData
+  dsimp only
+  cases hardened with
+  | true =>
+    simp only [if_true]
+    generalize ho : (if (((33 : Nat) : Int) - (k.key.length : Int)) < 1 then (1 : Int)
+      else ((33 : Nat) : Int) - (k.key.length : Int)) = o
+    generalize ho' : (if 33 - k.key.length < 1 then 1 else 33 - k.key.length) = o'
+    have hoo : o = (o' : Int) := by
+      rw [← ho, ← ho']; split <;> split <;> omega
+    have ho1 : 1 ≤ o' ∧ o' ≤ 33 := by
+      rw [← ho']; split <;> omega
+    subst hoo
+    rw [sliceFromI_ok _ _ (by omega) (by simp; omega), ok_bind]
+    simp only [Int.toNat_natCast, pure_eq, ok_bind]
+    rw [childDataC_tail _ i (by simp [copyInto_length]; omega)]
+    rw [data_hard k.key o' ho1.1 ho1.2]
+  | false =>
+    simp only [Bool.false_eq_true, if_false, pure_eq, ok_bind]
+    rw [childDataC_tail _ i (by simp [copyInto_length])]
+    rw [data_soft]
+
+theorem childFinishC_ne_panic (pr : Prims) (k : Bip32.XKey) (i : Nat) (data : Bytes) :
+    childFinishC pr k i data ≠ .panic := by
+  unfold childFinishC
+  dsimp only
+  rw [sliceTo_ok _ _ (by omega), ok_bind, sliceFrom_ok _ _ (by omega), ok_bind]
+  split
+  · simp
+  · split
+    · simp
+    · split
+      · simp
+      · rw [parsePubKeyC_eq]
+        cases Ecdsa.parsePubKey k.key <;> simp
+
+theorem childC_ne_panic (pr : Prims) (k : Bip32.XKey) (i : Nat) : childC pr k i ≠ .panic := by
+  unfold childC
+  dsimp only
+  split
+  · simp
+  · split
+    · simp
+    · rw [childDataC_eq, ok_bind]; exact childFinishC_ne_panic _ _ _ _
+
+theorem childC_eq (pr : Prims) (h512 : ∀ key m, (pr.hmac512 key m).length = 64)
+    (k : Bip32.XKey) (i : Nat) : childC pr k i = ofExcept (Bip32.child pr k i) := by
+  unfold childC Bip32.child
+  dsimp only
+  by_cases h1 : (k.depth == Gen.k_maxUint8) = true
+  · rw [if_pos h1, if_pos h1]; rfl
+  · rw [if_neg h1, if_neg h1]
+    by_cases h2 : (!k.isPrivate && decide (i ≥ Gen.k_hardenedKeyStart)) = true
+    · rw [if_pos h2, if_pos h2]; rfl
+    · rw [if_neg h2, if_neg h2, childDataC_eq, ok_bind]
+      have hd : childData k i (decide (i ≥ Gen.k_hardenedKeyStart)) =
+          (if i ≥ Gen.k_hardenedKeyStart then
+              ((List.replicate (if 33 - k.key.length < 1 then 1 else 33 - k.key.length) 0 ++ k.key) ++
+                List.replicate 33 0).take 33
+            else ((k.pubKeyBytes) ++ List.replicate 33 0).take 33) ++ Bip32.be32 i := by
+        unfold childData
+        by_cases hh : i ≥ Gen.k_hardenedKeyStart
+        · simp only [hh, decide_true, if_true]
+        · simp only [hh, decide_false, Bool.false_eq_true, if_false]
+      rw [hd]
+      generalize ((if i ≥ Gen.k_hardenedKeyStart then
+              ((List.replicate (if 33 - k.key.length < 1 then 1 else 33 - k.key.length) 0 ++ k.key) ++
+                List.replicate 33 0).take 33
+            else ((k.pubKeyBytes) ++ List.replicate 33 0).take 33) ++ Bip32.be32 i) = data
+      unfold childFinishC
+      dsimp only
+      rw [sliceTo_ok _ _ (by omega), ok_bind, sliceFrom_ok _ _ (by omega), ok_bind, h512]
+      by_cases h3 : (decide (beNat ((pr.hmac512 k.chainCode data).take (64 / 2)) ≥ Bip32.N) ||
+          decide (beNat ((pr.hmac512 k.chainCode data).take (64 / 2)) = 0)) = true
+      · rw [if_pos h3, if_pos h3]; rfl
+      · rw [if_neg h3, if_neg h3]
+        by_cases h4 : k.isPrivate = true
+        · rw [if_pos h4, if_pos h4]; rfl
+        · rw [if_neg h4, if_neg h4]
+          split
+          · rfl
+          · rw [parsePubKeyC_eq]
+            cases Ecdsa.parsePubKey k.key <;> rfl
+
+theorem derivePathAuxC_ne_panic (pr : Prims) : ∀ (cs : List Bytes) (k : Bip32.XKey),
+    derivePathAuxC pr k cs ≠ .panic
+  | [], k => by simp [derivePathAuxC]
+  | c :: cs, k => by
+    unfold derivePathAuxC childIndexC
+    cases Bip32.childIndex c with
+    | none => simp
+    | some i =>
+      simp only [ofOption_some, ok_bind]
+      cases hc : childC pr k i with
+      | panic => exact absurd hc (childC_ne_panic pr k i)
+      | err => simp
+      | ok k' => simp only [ok_bind]; exact derivePathAuxC_ne_panic pr cs k'
+
+theorem derivePathC_ne_panic (pr : Prims) (k : Bip32.XKey) (p : Bytes) : derivePathC pr k p ≠ .panic := by
+  unfold derivePathC
+  split
+  · simp
+  · exact derivePathAuxC_ne_panic pr _ k
+
+theorem derivePathAuxC_eq (pr : Prims) (h512 : ∀ key m, (pr.hmac512 key m).length = 64) :
+    ∀ (cs : List Bytes) (k : Bip32.XKey),
+      derivePathAuxC pr k cs = ofExcept (Bip32.derivePathAux pr k cs)
+  | [], k => rfl
+  | c :: cs, k => by
+    unfold derivePathAuxC childIndexC Bip32.derivePathAux
+    cases Bip32.childIndex c with
+    | none => rfl
+    | some i =>
+      simp only [ofOption_some, ok_bind]
+      rw [childC_eq pr h512]
+      cases Bip32.child pr k i with
+      | error e => rfl
+      | ok k' => simp only [ofExcept, ok_bind]; exact derivePathAuxC_eq pr h512 cs k'
+
+theorem derivePathC_eq (pr : Prims) (h512 : ∀ key m, (pr.hmac512 key m).length = 64)
+    (k : Bip32.XKey) (p : Bytes) :
+    derivePathC pr k p = ofExcept (Bip32.deriveChildFromPath pr k p) := by
+  unfold derivePathC Bip32.deriveChildFromPath
+  split
+  · rfl
+  · exact derivePathAuxC_eq pr h512 _ k
 
 end GoBk.Checked
